@@ -144,6 +144,8 @@ func readsLimit(v ssa.Value, depth int) bool {
 	switch x := v.(type) {
 	case *ssa.BinOp:
 		return readsLimit(x.X, depth+1) || readsLimit(x.Y, depth+1)
+	case *ssa.Call:
+		return isLimitPredicate(x.Call.StaticCallee())
 	case *ssa.Phi:
 		for _, e := range x.Edges {
 			if readsLimit(e, depth+1) {
@@ -164,6 +166,9 @@ func underLimitCond(b *ssa.BasicBlock) bool {
 		iff := blockIf(blk)
 		if iff == nil {
 			return false
+		}
+		if call, ok := iff.Cond.(*ssa.Call); ok {
+			return isLimitPredicate(call.Call.StaticCallee())
 		}
 		bo, ok := iff.Cond.(*ssa.BinOp)
 		if !ok || !readsLimit(bo, 0) {
@@ -1388,4 +1393,30 @@ func checkCoupledAccumulators(c *core.Ctx, r *core.Rule, pkg string) {
 		}
 	}
 	c.Counts[pkg+"_coupled_resets"] = n
+}
+
+// isLimitPredicate: f returns a bool, has no effects (no stores, no calls) and
+// compares a counter with one of the MaxBufferedPages* options: a page-limit
+// test moved into a helper.
+func isLimitPredicate(f *ssa.Function) bool {
+	if f == nil || len(f.Blocks) == 0 || f.Signature.Results().Len() != 1 {
+		return false
+	}
+	if bt, ok := f.Signature.Results().At(0).Type().Underlying().(*types.Basic); !ok || bt.Kind() != types.Bool {
+		return false
+	}
+	pure, cmp := true, false
+	core.Instrs(f, func(ins ssa.Instruction) {
+		switch x := ins.(type) {
+		case *ssa.Store, *ssa.Call, *ssa.Go, *ssa.Defer, *ssa.MapUpdate, *ssa.Send:
+			pure = false
+		case *ssa.BinOp:
+			_, xc := core.ConstInt(x.X)
+			_, yc := core.ConstInt(x.Y)
+			if !xc && !yc && (x.Op == token.GEQ || x.Op == token.GTR || x.Op == token.LSS || x.Op == token.LEQ) && readsLimit(x, 0) {
+				cmp = true
+			}
+		}
+	})
+	return pure && cmp
 }
